@@ -1,8 +1,12 @@
 import MwVerif.Driver.Common
 import MwVerif.Model.SplitRow
+import MwVerif.Model.SingleCol
 
 /-! `split <max>;<cell>;<cell>…`, a cell being `<height>:<id> <height>:<id> …` (heights scaled to integers).
-Reply: the new rows separated by ` / `, their cells by ` | `, children as ids. -/
+Reply: the new rows separated by ` / `, their cells by ` | `, children as ids.
+
+`unpack <0|1>;<field>;…` (a one-column table taken apart, `Model/SingleCol.lean`): a field is `C <ids>` (a caption and its
+children), `R` (a row starts) or `c <ids>` (a cell of the row that started last).  Reply: `D( ids )` per `Div`, bare ids otherwise. -/
 namespace MwVerif.Driver.SplitRow
 open MwVerif.SplitRow MwVerif.Driver
 
@@ -14,6 +18,22 @@ def parseCell (s : String) : List (Nat × Nat) :=
       | _, _ => none
     | _ => none
 
+def parseIds (s : String) : List Nat := ((s.splitOn " ").filter (· ≠ "")).filterMap (·.toNat?)
+
+def addField (acc : List SingleCol.Child) (f : String) : List SingleCol.Child :=
+  let t := f.trimAscii.toString
+  if t.startsWith "C" then acc ++ [.caption (parseIds (t.drop 1).toString)]
+  else if t.startsWith "R" then acc ++ [.row []]
+  else if t.startsWith "c" then
+    match acc.reverse with
+    | .row cs :: rest => (SingleCol.Child.row (cs ++ [parseIds (t.drop 1).toString]) :: rest).reverse
+    | _ => acc
+  else acc
+
+def showOut : SingleCol.Out → String
+  | .div items => "D( " ++ " ".intercalate (items.map toString) ++ " )"
+  | .item x => toString x
+
 def step (line : String) : String :=
   let (cmd, rest) := splitCmd line
   match cmd, fields rest with
@@ -23,6 +43,8 @@ def step (line : String) : String :=
       let rows := splitRow m (cells.map parseCell)
       " / ".intercalate (rows.map fun r => " | ".intercalate (r.map fun c => " ".intercalate (c.map toString)))
     | none => "bad-op"
+  | "unpack", w :: fs =>
+    " ".intercalate ((SingleCol.unpack (w.trimAscii.toString == "1") (fs.foldl addField [])).map showOut)
   | _, _ => "bad-op"
 
 end MwVerif.Driver.SplitRow
